@@ -1231,6 +1231,9 @@ func (w *_listpairsFieldListAssemblerRepr) AssembleValue() datamodel.NodeAssembl
 }
 
 func (w *_listpairsFieldListAssemblerRepr) Finish() error {
+	if w.idx < 2 {
+		return fmt.Errorf("bindnode: too few values in listpairs field: a pair of field name and value is needed")
+	}
 	return nil
 }
 
